@@ -240,9 +240,10 @@ impl World {
             }
         }
         // canonical order (hash-map iteration order of shards/destinations/VRFs is not modelled):
-        // stable by (table, prefix) resp. by (address, register-before-unregister)
+        // FIB requests stably by (table, prefix); tracking requests: registers (by address) before
+        // unregisters (by address)
         fib.sort_by(|a, b| (a.0, a.1, a.2).cmp(&(b.0, b.1, b.2)));
-        nht.sort();
+        nht.sort_by(|a, b| (a.1, a.0).cmp(&(b.1, b.0)));
         (fib, nht)
     }
 
